@@ -67,3 +67,16 @@ rule = guarded(lambda op, x, y: op.Sub(x, y), lambda op, x, y: op.Sub(op.Add(x, 
 m2 = rewrite(m, [rule])
 print("   names defined:", [o for n in m2.graph.node for o in n.output], "then-branch:", [o for n in m2.graph.node[1].attribute[1].g.node for o in n.output])
 verdict("3 value name reused across scopes", m2)
+
+# 4. an input variable of the pattern bound to the output of a matched node: Add(r, r) with r = Relu(a) is an instance of Add(Relu(x), y)
+#    with y = r; the replacement consumes y, the Relu is removed all the same -> rewrite() raises half-way through the pass
+m = onnx.parser.parse_model('<ir_version: 10, opset_import: ["" : 18]> g (float[4] a) => (float[4] z) { r = Relu(a)  z = Add(r, r) }')
+for kw in ({}, {"as_function": True}):
+    rep = (lambda op, x, y: op.ReluAdd(x, y, _domain="fused")) if kw else (lambda op, x, y: op.Sub(op.Relu(x), op.Neg(y)))
+    rule = pattern.RewriteRule(lambda op, x, y: op.Add(op.Relu(x), y), rep, **kw)
+    try:
+        verdict(f"4 variable bound to interior value {kw}", rewrite(onnx.ModelProto.FromString(m.SerializeToString()), [rule]))
+    except Exception as e:
+        root = e
+        while root.__cause__ is not None: root = root.__cause__
+        print(f"4 variable bound to interior value {kw} -> RAISES {type(e).__name__} <- {type(root).__name__}: {str(root)[:150]}")
